@@ -108,6 +108,11 @@ class ConfigNodeMeta(NamespaceableMeta):
             return t(value, *args, nodes_memo=nodes_memo, _force_type=True, **kwargs)
 
         # actual object creation
+        if value is None:
+            # the memo keeps one node per object that appears several times in the data (yaml aliases),
+            # None however is the same object wherever it appears - two empty entries are still two nodes
+            nodes_memo = None
+
         if has_value and nodes_memo is not None and id(value) in nodes_memo:
             return nodes_memo[id(value)]
 
